@@ -324,6 +324,10 @@ func (x *Exec) appendOp(s *State, args []*Val, resT types.Type) *Val {
 		i, i, i, alen, srt, r, i, srt, at, aoff, i, srt, r, i))
 	s.assume(fmt.Sprintf("(forall ((%s Int)) (! (=> (and (<= 0 %s) (< %s %s)) (= (select (arr_%s %s) (+ %s %s)) (select (arr_%s %s) (+ (off_%s %s) %s)))) :pattern ((select (arr_%s %s) (+ (off_%s %s) %s)))))",
 		i, i, i, elen, srt, r, alen, i, srt, et, srt, et, i, srt, et, srt, et, i))
+	// the same fact indexed by the position in the result, so that a goal about r[k] finds it by matching
+	j := "j!a"
+	s.assume(fmt.Sprintf("(forall ((%s Int)) (! (=> (and (<= %s %s) (< %s (+ %s %s))) (= (select (arr_%s %s) %s) (select (arr_%s %s) (+ (off_%s %s) (- %s %s))))) :pattern ((select (arr_%s %s) %s))))",
+		j, alen, j, j, alen, elen, srt, r, j, srt, et, srt, et, j, alen, srt, r, j))
 	return &Val{T: resT, S: r}
 }
 
